@@ -84,6 +84,12 @@ class Sender:
         self.rng, self.mode, self.cache = rng, mode, {}
 
     def slot_for(self, atom):
+        if self.mode == "sweep":        # every slot of the cache once, in order; an atom already cached is referred to
+            for s, a in self.cache.items():
+                if a == atom:
+                    return s, False
+            self.next_slot = getattr(self, "next_slot", -1) + 1
+            return self.next_slot, True
         if self.mode == "lib":          # what this library's own writer does: every atom a new entry, segment 0, slot = header position
             return None, True
         for s, a in self.cache.items():
@@ -237,6 +243,21 @@ def run(ctx):
         rcases.append(case)
         schk.append("sndchk " + " ;; ".join(did))
         meant[case] = (want, mode, odd_long)
+    # every one of the 8 x 256 slots: created in nine headers of up to 255 entries, then referred to from nine more
+    snd = Sender(rng, "sweep")
+    names = [b"s%d" % k for k in range(2048)]
+    msgs, want, did = [], [], []
+    for rnd in range(2):
+        for lo in range(0, 2048, 255):
+            ts = [("t", [("a", a) for a in names[lo:lo + 255]])]
+            msgs.append(snd.message(ts).hex())
+            did.append(snd.last)
+            want.append([etf.denote(t) for t in ts])
+    if snd.next_slot == 2047:
+        case = "hdrdec " + ",".join(msgs)
+        rcases.append(case)
+        schk.append("sndchk " + " ;; ".join(did))
+        meant[case] = (want, "sweep", False)
     ctx.diff_domain("codec", rcases, oracle=reader_oracle(meant), nontrivial=lambda c, i: c if c.count(",") >= 1 else None,
                     classify=lambda c, i: ["op:hdrdec", "msgs:%d" % (c.count(",") + 1), "sender:" + meant[c][1]])
     # the sender of the theorems (Codec/AtomCache.v) is the sender of these histories: same header bytes, same atoms meant
